@@ -247,11 +247,15 @@ val set_ev : event list -> st -> st
 
 val init : nat -> kind -> st
 
-val emit : event -> st -> st
+val opt_is : 'a1 option -> bool
 
-val wake_r : st -> st
+val is_nil : 'a1 list -> bool
 
-val wake_s : st -> st
+val wake_ev : nat option -> event list
+
+val wake_r_if : bool -> st -> st
+
+val wake_s_if : bool -> st -> st
 
 val push : nat list -> st -> st
 
@@ -263,9 +267,15 @@ val destroy : nat list -> st -> st
 
 val free : st -> nat
 
+val close_int_s_if : bool -> st -> st
+
+val close_int_r_if : bool -> st -> st
+
 val close_int_s : st -> st
 
 val close_int_r : st -> st
+
+val both_gone : st -> bool
 
 val shared_drop_if : st -> st
 
